@@ -144,6 +144,7 @@ pub fn execute(c: &BCfg, seed: u64) -> W {
     let droppable = if c.how == STOP_DROP { Some(DroppableStore::new(w.stores[0].clone())) } else { None };
     let returned = AtomicU64::new(0);
     let halt = AtomicBool::new(false);
+    let t_start = std::time::Instant::now();
     let n_scripts = if c.gated { c.scripts.len() - 1 } else { c.scripts.len() } as u64;
     std::thread::scope(|sc| {
         let mut hs = Vec::new();
@@ -207,6 +208,7 @@ pub fn execute(c: &BCfg, seed: u64) -> W {
                 w.ctx.perturb();
                 w.ctx.perturb();
                 w.ctx.gates[0].open();
+                w.mark(MARK_GATE_OPENED_MS, t_start.elapsed().as_millis() as u64);
             }).unwrap();
         }
         // stopper
@@ -221,6 +223,7 @@ pub fn execute(c: &BCfg, seed: u64) -> W {
                 std::thread::sleep(std::time::Duration::from_millis(c.long_stall_ms));
             }
             w.ctx.perturb();
+            w.mark(MARK_SHUTDOWN_MS, t_start.elapsed().as_millis() as u64);
             if c.close_first {
                 w.stop(0, STOP_CLOSE);
                 w.ctx.perturb();
@@ -286,6 +289,44 @@ pub fn execute(c: &BCfg, seed: u64) -> W {
     w.metrics(0);
     drop(keep);
     w
+}
+
+const MARK_GATE_OPENED_MS: u32 = 10;
+const MARK_SHUTDOWN_MS: u32 = 11;
+
+/// The stop operation took >= 2.5 s and returned while the reducer loop was still running (its last act,
+/// releasing subscriber 0, came later or never), although nothing was parked or slow: the gate (if any) had
+/// been opened within half a second of the shutdown call. The stop was completed by its timeout.
+fn gave_up_without_cause(h: &Hist, c: &BCfg) -> Option<String> {
+    if cfg!(miri) || c.poison.is_some() {
+        return None; // (Miri's virtual clock is not a stopwatch)
+    }
+    let sr = first_stop(h, 0)?;
+    if sr.ret == INF || sr.ms < 2500 {
+        return None;
+    }
+    let mark = |code: u32| h.evs.iter().find(|e| e.k == K::Mark && e.idx == code).map(|e| e.x);
+    if c.gated {
+        match (mark(MARK_GATE_OPENED_MS), mark(MARK_SHUTDOWN_MS)) {
+            (Some(o), Some(sd)) if o.saturating_sub(sd) < 500 => {}
+            _ => return None,
+        }
+    }
+    let settled = settled_stop_ret(h, 0);
+    let released = h.evs.iter().find(|e| e.k == K::SUnsub && e.idx == 0).map(|e| e.seq);
+    if released.map(|r| r > settled).unwrap_or(true) {
+        let what = if sr.how == STOP_DROP { "drop(DroppableStore)" } else { "stop()" };
+        return Some(format!(
+            "store 0: {} returned after {} ms (its timeout) while the reducer loop was still working ({}), although no callback was parked or slow when it was called",
+            what,
+            sr.ms,
+            match released {
+                Some(r) => format!("subscribers were released at seq {}, the call had returned at seq {}", r, settled),
+                None => "subscribers were never released".to_string(),
+            }
+        ));
+    }
+    None
 }
 
 pub fn c04(h: &Hist, s: u8, v: &mut Verdicts, prop: &'static str) {
@@ -423,7 +464,12 @@ pub fn run(seed: u64, tiny: bool, focus: &str) -> Outcome {
     // every call of the scenario returned (it completed) and no stop() was left to its timeout with
     // the loop still running (the controller would have parked): C13 on stop-race programs
     v.evaluated.insert("C13");
-    if stop_timed_out(&h, 0) {
+    if let Some(msg) = gave_up_without_cause(&h, &c) {
+        if first_stop(&h, 0).map(|sr| sr.how == STOP_DROP).unwrap_or(false) {
+            v.fail("C15", msg.clone());
+        }
+        v.fail("C13", msg);
+    } else if stop_timed_out(&h, 0) {
         v.inconcl("C13", "a stop() took >= 2.5 s but the reducer loop finished (slow, not wedged)".into());
     } else if c.n_prod >= 2 {
         v.nontrivial.insert("C13");
